@@ -25,6 +25,7 @@ func checkC14(c *Ctx) {
 	c.Rule("C14/R7", "unit metadata survives from file to file: Files never replaces its reader wholesale and the reader creates its unit table only when it has none")
 
 	c.Rule("C14/R8", "-filter stays in force when -table/-row/-col carry a fixed value list: the projection parser ANDs the list's membership tests with the caller's filter, keeping that filter among the operands (same rule as C06/R6), so a measurement the filter rejects cannot reach a cell")
+	c.Rule("C14/R9", "the residue warning sees fields discovered late: flattened-field cache invariant (same rule as C09/R10)")
 	p := mustLoad(c, loadOpts{}, "./cmd/benchstat", "./"+btabRel, "./benchproc", "./benchfmt", "./benchmath", "./benchproc/internal/parse")
 	c14Wiring(c, p)
 	c14Add(c, p, "C14/R2")
@@ -34,6 +35,7 @@ func checkC14(c *Ctx) {
 	c08InternAs(c, p, "C14/R6")
 	c14Units(c, p, "C14/R7")
 	c06Conjoin(c, p, "C14/R8")
+	c09FlatInvariant(c, p, "C14/R9")
 }
 
 func c14Wiring(c *Ctx, p *Prog) {
